@@ -430,7 +430,7 @@ def exhaustive(falcon, cap, sent, depth, limits, budget, out, flush=None, stop=N
     stack = [()]
     n = 0
     while stack and n < budget:
-        if stop is not None and n >= 1000 and n % 200 == 0 and stop():
+        if stop is not None and n >= 500 and n % 100 == 0 and stop():
             break
         prefix = stack.pop()
         res = run_real(falcon, cap, sent, labels=list(prefix))
@@ -660,7 +660,7 @@ def main(ctx):
     done = 0
     last = None
     for i in range(n):
-        if i >= 1500 and i % 250 == 0 and over_deadline(ctx):
+        if i >= 800 and i % 100 == 0 and over_deadline(ctx):
             break
         cap = ctx.rng.choice([0, 1, 1, 2, 2, 3, 4])
         sent = gen_sent(ctx.rng, 8)
@@ -668,7 +668,7 @@ def main(ctx):
         runs.append((cap, sent, res))
         last = runs[-1]
         done += 1
-        if len(runs) >= 1000:
+        if len(runs) >= 800:
             nb, corr = judge(ctx, model, runs, 'rnd')
             any_clause |= nb > 0
             corr_all += corr
